@@ -79,13 +79,26 @@ func genC03(d *Draw) Case {
 	g.addNode(&Node{ID: "F", Kind: "and"})
 	g.connect(defs, cur, "F", nil, -1)
 	g.addNode(&Node{ID: "G", Kind: "and"})
+	// some of the flows into and out of the gateway carry no activity: their tokens arrive the moment the
+	// fork has fired, and leave straight into the closing join
+	nd, md := 0, 0
 	for i := 1; i <= n; i++ {
+		if d.N(4) == 3 {
+			g.connect(defs, "F", "G", nil, -1)
+			nd++
+			continue
+		}
 		u := mk(fmt.Sprintf("U%d", i))
 		g.connect(defs, "F", u.ID, nil, -1)
 		g.connect(defs, u.ID, "G", nil, -1)
 	}
 	g.addNode(&Node{ID: "J", Kind: "and"})
 	for j := 1; j <= m; j++ {
+		if d.N(4) == 3 {
+			g.connect(defs, "G", "J", nil, -1)
+			md++
+			continue
+		}
 		dn := mk(fmt.Sprintf("D%d", j))
 		g.connect(defs, "G", dn.ID, nil, -1)
 		g.connect(defs, dn.ID, "J", nil, -1)
@@ -107,10 +120,10 @@ func genC03(d *Draw) Case {
 		g.connect(defs, "J", "End", nil, -1)
 	}
 	g.index()
-	prog := &Program{Defs: defs, Vars: map[string]any{}, Desc: fmt.Sprintf("parallel %dx%d activations=%d", n, m, acts)}
+	prog := &Program{Defs: defs, Vars: map[string]any{}, Desc: fmt.Sprintf("parallel %dx%d activations=%d (flows without activity: %d in, %d out)", n, m, acts, nd, md)}
 	c := &ProcCase{Prog: prog, Buf: d.N(17), Hold: 1 + d.N(2)}
 	c.Picks = drawPicks(d, 40)
-	c.Meta = map[string]int{"n": n, "m": m, "acts": acts}
+	c.Meta = map[string]int{"n": n, "m": m, "acts": acts, "nd": nd, "md": md}
 	return c
 }
 
@@ -134,10 +147,11 @@ func checkC03(cc Case, r *simrt.Result) *Outcome {
 			upAns++
 		case ev.Kind == "t:task" && strings.HasPrefix(ev.A, "D"):
 			downReq++
-			// the k-th activation's downstream requests need all N upstream answers of activations 1..k
-			k := (downReq-1)/m + 1
-			if upAns < k*n {
-				vl.add("C03/released-early", "step %d: downstream request #%d (activation %d) after only %d upstream answers, need %d", ev.Step, downReq, k, upAns, k*n)
+			// the k-th activation's downstream requests need all upstream answers of activations 1..k
+			mt, nt := m-c.Meta["md"], n-c.Meta["nd"]
+			k := (downReq-1)/mt + 1
+			if upAns < k*nt {
+				vl.add("C03/released-early", "step %d: downstream request #%d (activation %d) after only %d upstream answers, need %d", ev.Step, downReq, k, upAns, k*nt)
 			}
 		}
 	}
@@ -152,8 +166,8 @@ func checkC03(cc Case, r *simrt.Result) *Outcome {
 		if completions != surplus*acts {
 			vl.add("C03/surplus", "surplus tokens completed at the gateway: %d, want %d (N=%d M=%d activations=%d)", completions, surplus*acts, n, m, acts)
 		}
-		if downReq != m*acts {
-			vl.add("C03/token-count", "downstream requests %d, want %d", downReq, m*acts)
+		if want := (m - c.Meta["md"]) * acts; downReq != want {
+			vl.add("C03/token-count", "downstream requests %d, want %d", downReq, want)
 		}
 	}
 	for _, p := range r.Panics {
@@ -165,6 +179,7 @@ func checkC03(cc Case, r *simrt.Result) *Outcome {
 	probe(o, "overlapping-activations", c.Meta["burst"] == 1)
 	probe(o, "surplus-consumed", completions > 0)
 	probe(o, "fanout-gt-fanin", m > n)
+	probe(o, "flows-without-activity-at-the-gateway", c.Meta["nd"]+c.Meta["md"] > 0)
 	o.Sample = map[string]any{"program": c.Prog.Desc, "buf": c.Buf, "hold": c.Hold, "answer_order": answerOrder(c.env)}
 	return o
 }
